@@ -82,6 +82,12 @@ def comprehension_family():
         ('bool', 'and', [('call', 'any', [('comp', '(', ('cmp', 'r.amount', [('>', '0')]), [('r', 'orders', [])])]), 'r']),
         ('bool', 'or', [('call', 'all', [('comp', '(', ('cmp', 'r.amount', [('>', '20')]), [('r', 'orders', [])])]), 'r.item']),
         ('bool', 'and', [('comp', '[', 'r', [('r', 'orders', [])]), 'r']),
+        # a generator run to completion restores the loop variable, one left early does not
+        ('bool', 'or', [('cmp', ('call', 'sum', [('comp', '(', 'r.amount', [('r', 'orders', [])])]), [('==', '-1')]), 'r']),
+        ('bool', 'and', [('call', 'all', [('comp', '(', 'r', [('r', 'orders', [])])]), 'r']),
+        ('bool', 'or', [('cmp', ('call', 'max', [('comp', '(', 'r.amount', [('r', 'orders', [])])]), [('<', '-100')]), 'r.item']),
+        ('bool', 'or', [('call', 'any', [('comp', '(', 'False', [('r', 'orders', []), ('p', 'orders', [])])]), 'p', 'r']),
+        ('bool', 'and', [('walrus', 'r', '7'), ('call', 'len', [('comp', '[', 'r', [('r', 'orders', [])])]), 'r']),
         ('bool', 'and', [('walrus', 'm', ('comp', '[', 'r', [('r', 'orders', [('cmp', 'r.amount', [('==', 'txn.amount')])])])),
                          ('cmp', ('call', 'len', ['m']), [('>', '0')])]),
         ('bin', '+', ('walrus', 'amount', '5'), 'amount'),
